@@ -2,6 +2,7 @@ package main
 
 import (
 	"go/ast"
+	"strings"
 )
 
 // C24: for each error site of the decompress wrappers, does the `return` inside the
@@ -49,7 +50,13 @@ func siteFact(f *File, fd *ast.FuncDecl, callee string) (string, int) {
 			continue
 		}
 		call, ok := as.Rhs[0].(*ast.CallExpr)
-		if !ok || f.Str(call.Fun) != callee || len(as.Lhs) != 2 {
+		// the callee is matched by its selector (method / function name), not by the receiver's local name
+		fn := f.Str(call.Fun)
+		want := callee
+		if i := strings.LastIndex(callee, "."); i >= 0 && !strings.HasPrefix(callee, "gzip.") && !strings.HasPrefix(callee, "io.") && !strings.HasPrefix(callee, "snappy.") {
+			want = callee[i:] // ".DecodeAll"
+		}
+		if !ok || len(as.Lhs) != 2 || !(fn == callee || (strings.HasPrefix(want, ".") && strings.HasSuffix(fn, want))) {
 			continue
 		}
 		errVar := f.Str(as.Lhs[1])
@@ -60,10 +67,17 @@ func siteFact(f *File, fd *ast.FuncDecl, callee string) (string, int) {
 		}
 		switch nx := stmts[i+1].(type) {
 		case *ast.IfStmt:
-			if f.Str(nx.Cond) != errVar+" != nil" || len(nx.Body.List) != 1 {
+			if f.Str(nx.Cond) != errVar+" != nil" || len(nx.Body.List) == 0 {
 				return "unknown", line
 			}
-			ret, ok := nx.Body.List[0].(*ast.ReturnStmt)
+			// statements before the return may only be plain calls (logging); anything that could
+			// change the error variable makes the site unknown
+			for _, st := range nx.Body.List[:len(nx.Body.List)-1] {
+				if _, isCall := st.(*ast.ExprStmt); !isCall {
+					return "unknown", line
+				}
+			}
+			ret, ok := nx.Body.List[len(nx.Body.List)-1].(*ast.ReturnStmt)
 			if !ok || len(ret.Results) != 2 {
 				return "unknown", line
 			}
